@@ -1,5 +1,15 @@
 package main
 
+import (
+	"fmt"
+	"os"
+	"path/filepath"
+	"regexp"
+	"strings"
+
+	"verif/common"
+)
+
 // Adversarial alphabets for user-written resolver files.
 //
 // A BodyElem describes how ONE resolver method is rewritten by "the user": doc comment,
@@ -125,6 +135,14 @@ type DeclElem struct {
 	Decls   string   // top-level declarations added to the file
 	Use     string
 	OnlyB   bool // follow-schema: only b.resolvers.go gets it
+	// Twin: for EVERY resolver method of the file, hand-written methods whose names collide
+	// with it under a plausible relaxation of "same method" are added in four places: a file
+	// of the package that sorts before every resolver file, above the resolver methods in the
+	// resolver file, below them, and a file that sorts after. Relaxations:
+	//   "case"     same receiver type, name equal under case folding (alpha, ALPHA, aLPHA, alphA)
+	//   "receiver" same name on another receiver type
+	//   "affix"    same receiver type, name with a suffix / prefix (AlphaImpl, DoAlpha, Alpha2, doAlpha)
+	Twin string
 }
 
 var decls = []DeclElem{
@@ -141,19 +159,75 @@ var decls = []DeclElem{
 		Decls: "const userConst$F = \"c$F\"\n\nconst (\n\tuserIotaA$F = iota\n\tuserIotaB$F\n)"},
 	{Name: "init-func", Group: "decls",
 		Decls: "func init() {\n\tif false {\n\t\tpanic(\"init $F\")\n\t}\n}"},
+	{Name: "twin-methods-case-fold", Group: "decls", Twin: "case"},
+	{Name: "twin-methods-other-receiver", Group: "decls", Twin: "receiver"},
+	{Name: "twin-methods-affix", Group: "decls", Twin: "affix"},
 	{Name: "import-plain", Group: "imports", Imports: []string{`"os"`}, Use: `_ = os.Getenv("$F")`},
 	{Name: "import-alias", Group: "imports", Imports: []string{`str "strings"`}, Use: `_ = str.ToUpper("$F")`},
 	{Name: "import-dot", Group: "imports", Imports: []string{`. "unicode/utf8"`}, Use: `_ = RuneLen('x')`},
 	{Name: "import-blank", Group: "imports", Imports: []string{`_ "embed"`}},
 	{Name: "import-separate-decls", Group: "imports", SepImp: true, Imports: []string{`xb "bufio"`, `"sort"`}, Use: `_, _ = xb.MaxScanTokenSize, sort.Ints`},
+	{Name: "import-alias-shadowed", Group: "imports", Imports: []string{`shd "unicode"`},
+		Use: "_ = shd.IsUpper('$F')\n\t{\n\t\tshd := struct{ Field int }{1} // local that shadows the user's import alias\n\t\t_ = shd.Field\n\t}\n\tfunc(shd struct{ Field int }) { _ = shd.Field }(struct{ Field int }{})"},
 	{Name: "import-alias-b-only", Group: "imports2", OnlyB: true, Imports: []string{`str "strings"`}, Use: `_ = str.ToUpper("$F")`},
 	{Name: "import-alias-suffix-of-path", Group: "imports2", Imports: []string{`h "path"`}, Use: `_ = h.Base("$F")`},
 	{Name: "import-alias-of-template-import", Group: "imports2", Imports: []string{`sc "strconv"`}, Use: `_ = sc.Itoa(1)`},
 	{Name: "import-two-blank", Group: "imports2", Imports: []string{`_ "embed"`, `_ "image/png"`}},
 	{Name: "import-two-dot", Group: "imports2", Imports: []string{`. "math/bits"`, `. "unicode/utf8"`}, Use: `_, _ = LeadingZeros8(1), RuneLen('x')`},
-	{Name: "helper-with-terminator-in-string", Group: "terminators", Decls: "func userTerm$F() int { return len(\"*/\") }"},
-	{Name: "helper-with-block-comment", Group: "terminators", Decls: "func userBlk$F() int {\n\t/* inner comment */\n\treturn 1\n}"},
+	{Name: "helper-with-terminator-in-string", Group: "decls", Decls: "func userTerm$F() int { return len(\"*/\") }"},
+	{Name: "helper-with-block-comment", Group: "decls", Decls: "func userBlk$F() int {\n\t/* inner comment */\n\treturn 1\n}"},
 }
+
+var identRe = regexp.MustCompile(`^[A-Za-z_][A-Za-z0-9_]*$`)
+
+// templateImportNames reads the reserveImport list of resolver.gotpl of the tree under test and
+// returns the local names those packages get (last path element, or the one before a /vN).
+func templateImportNames() ([]string, error) {
+	b, err := os.ReadFile(filepath.Join(common.RepoDir(), "plugin", "resolvergen", "resolver.gotpl"))
+	if err != nil {
+		return nil, err
+	}
+	var out []string
+	seen := map[string]bool{}
+	for _, m := range regexp.MustCompile(`reserveImport\s+"([^"]+)"`).FindAllStringSubmatch(string(b), -1) {
+		parts := strings.Split(m[1], "/")
+		n := parts[len(parts)-1]
+		if regexp.MustCompile(`^v[0-9]+$`).MatchString(n) && len(parts) > 1 {
+			n = parts[len(parts)-2]
+		}
+		if identRe.MatchString(n) && !seen[n] {
+			seen[n] = true
+			out = append(out, n)
+		}
+	}
+	if len(out) == 0 {
+		return nil, fmt.Errorf("no reserveImport lines found in resolver.gotpl")
+	}
+	return out, nil
+}
+
+// addTemplateShadowBody appends the body element whose locals, closure parameters, closure
+// variables and closure results SHADOW every package name the resolver template reserves and
+// are used as selector bases (time := ...; time.Field). The file makes no genuine use of those
+// packages (except context and fmt, shadowed in inner scopes only).
+func addTemplateShadowBody() error {
+	names, err := templateImportNames()
+	if err != nil {
+		return err
+	}
+	var b strings.Builder
+	for _, n := range names {
+		fmt.Fprintf(&b, "\t{\n\t\t%s := struct{ Field int }{1} // local named like a package the template imports\n\t\t_ = %s.Field\n\t}\n", n, n)
+		fmt.Fprintf(&b, "\tfunc(%s struct{ Field int }) { _ = %s.Field }(struct{ Field int }{})\n", n, n)
+		fmt.Fprintf(&b, "\tfunc() {\n\t\tvar %s struct{ Field int }\n\t\t_ = %s.Field\n\t}()\n", n, n)
+		fmt.Fprintf(&b, "\t_ = func() (%s struct{ Field int }) {\n\t\t%s.Field = len(\"$M\")\n\t\treturn\n\t}()\n", n, n)
+	}
+	bodies = append(bodies, BodyElem{Name: "shadow-template-imports", Body: b.String() + plainBody})
+	templateNames = names
+	return nil
+}
+
+var templateNames []string
 
 func bodyByName(n string) *BodyElem {
 	for i := range bodies {
